@@ -72,19 +72,56 @@ class LineCov:
 UNREACHABLE = []
 
 
+class NoCov:
+    '''Stand-in when the tracer cannot be set up: coverage is information only.'''
+    codes = {}
+
+    def __enter__(self):
+        return self
+
+    def __exit__(self, *exc):
+        return False
+
+    def missing(self, unreachable):
+        return 0, []
+
+
 def anchored_functions():
-    from t4_geom_convert.Kernel import Utils
-    from t4_geom_convert.Kernel.FileHandlers.Parser.ParseMCNPCell import \
-        ParseMCNPCell
-    from t4_geom_convert.Kernel.Volume.CellConversion import CellConversion
-    from t4_geom_convert.Kernel.GeomComp import ConstructGeomCompT4
-    from t4_geom_convert.Kernel.Composition import ConstructCompositionT4
-    from t4_geom_convert.Kernel.FileHandlers.Writer import (WriteT4GeomComp,
-                                                            WriteT4Composition)
-    return [Utils.normalize_float, ParseMCNPCell.parse_material,
-            ParseMCNPCell.parse_one_cell, ParseMCNPCell.apply_but,
-            CellConversion.pot_fill,
-            ConstructGeomCompT4.constructGeomCompT4,
-            WriteT4GeomComp.writeT4GeomComp,
-            ConstructCompositionT4.constructCompositionT4,
-            WriteT4Composition.writeT4Composition]
+    '''(functions found, names not present).  Every lookup is tolerant: a
+    rewrite may rename or remove helpers; what is missing is only recorded.'''
+    import importlib
+    wanted = [
+        ('t4_geom_convert.Kernel.Utils', ['normalize_float']),
+        ('t4_geom_convert.Kernel.FileHandlers.Parser.ParseMCNPCell',
+         ['ParseMCNPCell.parse_material', 'ParseMCNPCell.parse_one_cell',
+          'ParseMCNPCell.apply_but']),
+        ('t4_geom_convert.Kernel.Volume.CellConversion',
+         ['CellConversion.pot_fill']),
+        ('t4_geom_convert.Kernel.GeomComp.ConstructGeomCompT4',
+         ['constructGeomCompT4']),
+        ('t4_geom_convert.Kernel.FileHandlers.Writer.WriteT4GeomComp',
+         ['writeT4GeomComp']),
+        ('t4_geom_convert.Kernel.Composition.ConstructCompositionT4',
+         ['constructCompositionT4']),
+        ('t4_geom_convert.Kernel.FileHandlers.Writer.WriteT4Composition',
+         ['writeT4Composition']),
+    ]
+    found, absent = [], []
+    for module, names in wanted:
+        try:
+            mod = importlib.import_module(module)
+        except Exception:
+            absent.extend(f'{module}.{n}' for n in names)
+            continue
+        for dotted in names:
+            obj = mod
+            for part in dotted.split('.'):
+                obj = getattr(obj, part, None)
+                if obj is None:
+                    break
+            func = getattr(obj, '__func__', obj)
+            if obj is None or not hasattr(func, '__code__'):
+                absent.append(f'{module}.{dotted}')
+            else:
+                found.append(obj)
+    return found, absent
